@@ -17,4 +17,22 @@ PROPS = {
         "level_text": "Bounded symbolic verification: for every n in the bound, every real matrix with det != 0, every right-hand side and every pivot path, z3 shows the residual A*x-b is identically zero, no divisor can vanish, multipliers are bounded by one and the two solvers agree. Values are universally quantified (solver), sizes are enumerated; nothing is sampled. This is the right level because the interesting inputs (zero/tiny pivots at a given step, sign patterns) are exactly the branch conditions of the path exploration.",
         "level_note": "Exact-real semantics stands in for f64 (rounding outside the claim); n <= 3; trusted: rustc monomorphisation, symcore emission, z3. The textbook backward-error bound for partial pivoting is cited from the proven multiplier bound, not proved.",
     },
+    "C02": {
+        "explanation": "Matrix::<Sym>::determinant and inverse (generic code of the current tree at the term-building scalar). determinant(): for EVERY real n x n matrix (no precondition, so singular, rank-deficient, zero-column and permutation-like matrices are inside) and every pivot path, z3 must show the returned term equals the cofactor-expansion determinant (sign under any number of row exchanges included) and that no divisor can be zero. inverse(): under det != 0, A*inv = I and inv*A = I entry by entry. The operand's entry terms after the call must be the identical arena nodes as before (left intact).",
+        "functions": ["Matrix::determinant", "Matrix::inverse", "Matrix::lu_decomp_in_place", "Matrix::swap_rows", "Matrix::swap_elem", "Matrix::eye", "Matrix::clone"],
+        "bounds": {"quick": "n = 1..3, all real entries, all pivot paths", "thorough": "n = 1..3 plus determinant at n = 4 (reported; part of the claim only if every obligation decides)"},
+        "outside": "orders 5..8 of the quantifier text; f64 rounding; Complex<f64> elements",
+        "assumptions": COMMON_ASSUME + ["inverse: det(A) != 0; determinant: none"],
+        "level_text": "Bounded symbolic verification over all real matrices of order <= 3: the determinant identity (including singular inputs and exchange parity) and the two-sided inverse identity are SMT obligations discharged on every pivot path; operand immutability is checked on the term DAG.",
+        "level_note": "Exact-real semantics stands in for f64; n <= 3 (n = 4 determinant attempted in thorough). Trusted: rustc monomorphisation, symcore emission, z3.",
+    },
+    "C03": {
+        "explanation": "Every public dense-matrix operation (matrix/{mod,operations,arithmetic,functions}.rs) is executed at the term-building scalar from an ARBITRARY state of each shape (one fresh symbol per entry) and compared, shape and entry by entry, with an independent Vec<Vec<term>> model: sum/difference/negation (owned and borrowed), scalar * / += -= *= /=, matrix-matrix and matrix-vector products, (AB)^T = B^T A^T, transpose (both forms, twice), get/set_row/col for every valid index, delete_row, swap_rows for every pair, swap_elem, fill, fill_diag, fill_band for every offset, fill_tridiag, fill_row/col, resize to every shape in a box around the current one, eye, clear, new, clone. One step from an arbitrary valid state = any finite history by induction. Norms (f64-only, derived crate): norm_1/inf/max dominate every candidate and are attained, norm_frob^2 = sum of squares, norm_p(1), f64*matrix.",
+        "functions": ["Matrix::{new,clone,eye,clear,get_row,get_col,set_row,set_col,delete_row,multiply,resize,transpose,transpose_in_place,swap_rows,swap_elem,fill,fill_diag,fill_band,fill_tridiag,fill_row,fill_col}", "Neg/Add/Sub/Mul/Div and *Assign impls for Matrix (owned and borrowed)", "Matrix*Matrix, Matrix*Vector", "Matrix<f64>::{norm_1,norm_inf,norm_p,norm_frob,norm_max}", "f64 * Matrix<f64>"],
+        "bounds": {"quick": "all shapes 0..3 x 0..3 (16) for editing/element-wise ops; products r,k,c in 0..3 (64 triples); norms 0..3; all real values", "thorough": "shapes 0..8 x 0..8 for editing ops (as the quantifier asks), products r,k,c in 0..5, norms 0..4"},
+        "outside": "norm_p for p not in {1,2} (uninterpreted pow); f64 rounding; out-of-range arguments (C20)",
+        "assumptions": COMMON_ASSUME + ["scalar division: divisor != 0"],
+        "level_text": "Bounded symbolic verification: for each shape in the bound the result of each operation is shown equal to the reference model for all element values (DAG identity or z3), from an arbitrary starting state, so operation histories of any length are covered by induction on the state (rows, cols, entries).",
+        "level_note": "Shapes are enumerated, values are universally quantified. The private invariant mat.len() == rows*cols is observed only through numel() and by reading every (i,j). Trusted: rustc monomorphisation, symcore, retype.py for the norms, z3.",
+    },
 }
